@@ -59,9 +59,10 @@ Print Assumptions C18_append_hom.
 (* ... and on bytes: cutting the input stream after any newline cuts the output stream (never a
    dependence on buffer position or neighbouring lines), for every per-line filter F *)
 Theorem C18_split_at_line_boundary :
-  forall (F : list line -> list line), (forall a b, F (a ++ b) = F a ++ F b) ->
+  forall (F : list line -> list line) (strip_cr : bool), (forall a b, F (a ++ b) = F a ++ F b) ->
   forall A B : list Z,
-  bytes_of (F (lines_of (A ++ newline :: B))) = bytes_of (F (lines_of (A ++ [newline]))) ++ bytes_of (F (lines_of B)).
+  bytes_of (F (records newline strip_cr (A ++ newline :: B))) =
+  bytes_of (F (records newline strip_cr (A ++ [newline]))) ++ bytes_of (F (records newline strip_cr B)).
 Proof. exact stateless_tool_split. Qed.
 Print Assumptions C18_split_at_line_boundary.
 
